@@ -321,8 +321,59 @@ def shutdown_grid(rng, count):
     return out
 
 
+def nested_gap(rng, count):
+    """C01/C10/C11: a job requires both a nested scheduler and a sibling that
+    finishes while the nested run is winding down (cancelling its forever
+    jobs, running slow shutdown handlers) after its last regular job"""
+    out = []
+    for _ in range(count):
+        x = rng.choice([0, 1, 2])
+        sd = rng.choice([0, 1, 2, 3])
+        cd = rng.choice([0, 1, 2])
+        with_forever = rng.random() < 0.6
+        inner = [J(), J(0)] if rng.random() < 0.4 else [J()]
+        if with_forever:
+            inner.append(J())
+        deep = rng.random() < 0.3
+        nested = S([S(inner)]) if deep else S(inner)
+        others = rng.randint(1, 2)
+        kids = [nested] + [J() for _ in range(others)]
+        kids.append(("J", list(range(len(kids)))))       # requires everything before it
+        if rng.random() < 0.5:
+            kids.append(J(len(kids) - 1))
+        shape = tree(S(kids))
+        kind, parent, _ = shape
+        n = len(kind)
+        gap_lo, gap_hi = x, x + max(sd, cd) + 1
+        dur, sdur, cdur, forever = [0] * n, [0] * n, [0] * n, [False] * n
+        stmo = [rng.choice([-1, 3, 4]) if kind[i] == "sched" else 1 for i in range(n)]
+        inner_sched = max(i for i in range(n) if kind[i] == "sched") + 1
+        members = [i for i in range(n) if parent[i] == inner_sched]
+        for idx, i in enumerate(members):
+            dur[i] = x if idx < len(members) - 1 or not with_forever else -1
+            sdur[i] = rng.choice([0, sd])
+            cdur[i] = cd
+            if with_forever and idx == len(members) - 1:
+                forever[i] = True
+        for i in range(n):
+            if kind[i] == "job" and parent[i] == 1:
+                dur[i] = rng.randint(gap_lo, gap_hi) if not _reqs_everything(shape, i) else rng.choice([0, 1])
+        sc = _mk(rng, shape, dur=dur, sdur=sdur, cdur=cdur, forever=forever, stmo=stmo,
+                 crit=[rng.random() < 0.3 for _ in range(n)],
+                 win=[rng.choice([0, 0, 0, 2]) if kind[i] == "sched" else 0 for i in range(n)])
+        sc["harness"]["k"] = [rng.choice([0, 0, 1, 2]) for _ in range(n)]
+        if admissible(sc["cfg"]):
+            out.append(sc)
+    return out
+
+
+def _reqs_everything(shape, i):
+    return len(shape[2][i]) >= 2 or (shape[2][i] and shape[0][shape[2][i][0] - 1] == "job"
+                                     and len(shape[2][shape[2][i][0] - 1]) >= 2)
+
+
 STRUCTURED = {
-    "C01": [(joins, 0.3), (small_perms, 0.1)],
+    "C01": [(joins, 0.25), (small_perms, 0.1), (nested_gap, 0.15)],
     "C02": [(tie_groups, 0.4)],
     "C03": [(window_failures, 0.4), (deadlines, 0.1)],
     "C04": [(critical_instants, 0.2), (deadlines, 0.2), (crit_chains, 0.2)],
@@ -331,8 +382,8 @@ STRUCTURED = {
     "C07": [(window_failures, 0.3), (tie_groups, 0.1), (critical_instants, 0.1)],
     "C08": [(deadlines, 0.5)],
     "C09": [(forevers, 0.5)],
-    "C10": [(crit_chains, 0.3)],
-    "C11": [(shutdown_grid, 0.3), (deadlines, 0.2)],
+    "C10": [(crit_chains, 0.3), (nested_gap, 0.2)],
+    "C11": [(shutdown_grid, 0.3), (deadlines, 0.2), (nested_gap, 0.1)],
     "C12": [(joins, 0.2), (small_perms, 0.2), (tie_groups, 0.2)],
     "C13": [(shutdown_grid, 0.5)],
     "C14": [(window_failures, 0.15), (critical_instants, 0.15)],
